@@ -2,8 +2,12 @@
 import os, json, glob
 import engine, specparse
 
-QUICK_CAPS = [2]
-THOROUGH_CAPS = [3]
+# quick: capacity <= 3 from a symmetry-reduced pre-state (node ids canonically numbered; sound because the
+# extracted code, the std models and the specifications use node ids only as opaque names: ==, != and
+# array indexing, allocation picks ANY free id -- the extractor has no rule for any other use);
+# thorough: capacity <= 3 from the unreduced pre-state.
+QUICK = dict(caps=[3], sym=True)
+THOROUGH = dict(caps=[3], sym=False)
 LOCK_PROPS = ('C06', 'C07')
 
 
@@ -24,7 +28,8 @@ def load(gdir):
 
 def units_for(prop, tier, gdir):
     gen, infos, specs = load(gdir)
-    caps = QUICK_CAPS if tier == 'quick' else THOROUGH_CAPS
+    cfg = QUICK if tier == 'quick' else THOROUGH
+    caps = cfg['caps']
     units = []
     notes = dict(containers=[], functions=[])
     for cn, sp in specs.items():
@@ -43,7 +48,10 @@ def units_for(prop, tier, gdir):
             notes['functions'].append(fn)
             for mc in caps:
                 to = int(sp.funcs[fn].opts.get('timeout', '1500' if tier == 'quick' else '3600'))
-                units.append(engine.Unit(cn, fn, mc, sp, infos[cn], gen, timeout=to))
+                split = sp.funcs[fn].opts.get('split')
+                cases = [None] if not split else [(0, split), (1, '!(%s)' % split)]
+                for case in cases:
+                    units.append(engine.Unit(cn, fn, mc, sp, infos[cn], gen, timeout=to, sym=cfg['sym'], case=case))
             if tier == 'thorough' and sp.funcs[fn].opts.get('modular') == 'yes':
                 units.append(engine.Unit(cn, fn, 2, sp, infos[cn], gen, timeout=3600, modular=True))
     return units, notes
